@@ -191,6 +191,27 @@ def run_job(job, tier, seed):
                     if not ok:
                         res.violate('MVArray.save then load_ga_file does not return equal multivectors attached to the loading layout', site,
                                     None, None, dict(site, op='save-load'))
+                    # the file MVArray.save wrote (it passes its own default `support=False` through), read with the plain reader: the array as
+                    # saved and no support for dense data; likewise for the spellings of "no support" a caller of write_ga_file may use
+                    try:
+                        d_, m_, n_, sup_ = cio.read_ga_file(fn)
+                        res.count('mvarray_save_plain_read')
+                        if not (sup_ is None and np.array_equal(d_, arr.value) and d_.dtype == arr.value.dtype):
+                            res.violate('read_ga_file of a file written by MVArray.save does not return the saved array with no support', site,
+                                        dict(support=repr(sup_), shape=list(getattr(d_, 'shape', []))), dict(support=None, shape=list(arr.value.shape)),
+                                        dict(site, op='save-plain-read'))
+                        for spelled in (False, None):
+                            fn3 = os.path.join(tmp, f"u{k}.ga")
+                            cio.write_ga_file(fn3, arr.value, L.metric, L.basis_names, compression=comp, transpose=tr, sparse=False, support=spelled)
+                            d3, m3, n3, sup3 = cio.read_ga_file(fn3)
+                            res.case(('dense-support-spelling', comp, tr, shp, tuple(sig), repr(spelled)))
+                            res.count('dense_support_spelling')
+                            if not (sup3 is None and np.array_equal(d3, arr.value)):
+                                res.violate('dense data written with sparse=False reports a support', dict(site, support_argument=repr(spelled)), repr(sup3), None,
+                                            dict(site, op='dense-support', support_argument=repr(spelled)))
+                            os.unlink(fn3)
+                    except Exception as e:
+                        res.violate('reading a file written by MVArray.save / write_ga_file(sparse=False) raises', site, repr(e), 'round trip', dict(site, op='save-plain-raise'))
                     # a second layout with the SAME signature (equal under Layout.__eq__) but another blade order, used after the first one in
                     # this process: what it saves and loads belongs to it, not to the first layout
                     if len(sig) >= 2:
